@@ -342,13 +342,58 @@ def sepBranch (F : Flags) (look : Look) (cn : String) (l : PyVal) : BranchRes :=
   | .none => pure (l, some qn, false)      -- "This is to avoid unwanted transformations."
   | _ => do pure (← sepApply look F.actBits qn dq pq bq l, some qn, true)
 
-/-- the inner layer of a Bidirectional wrapper: the one-entry dictionary
-    `{inner_name: get_config(quantizer_config, layer, "QBidirectional")}` and `quantize_rnn` -/
-def bidirInner (look : Look) (bits : String) (inner : PyVal) : R PyVal := do
-  let iname ← sub (← sub inner "config") "name"
+/-! ### the one-entry dictionaries of the Bidirectional branch
+
+    `forward_layer_quantizer_config = {layer_config["layer"]["config"]["name"]: get_config(...)}`
+    (and the same for `backward_layer`) are the only dictionaries of the loop that are not the caller's
+    and whose key is a JSON value of the model (any hashable value, not only a string), so they get a
+    literal model of their own: key equality is Python's `==` on hashable JSON values. -/
+
+/-- numeric reading of a hashable JSON key (`True == 1`, `1.0 == 1`) -/
+def keyNum : PyVal → Option (Int × Nat)
+  | .bool b => some (if b then 1 else 0, 0)
+  | .num m e => some (m, e)
+  | _ => none
+
+/-- `a == b` for two hashable JSON values used as dictionary keys -/
+def pyKeyEq (a b : PyVal) : Bool :=
+  match a, b with
+  | .none, .none => true
+  | .str s, .str t => decide (s = t)
+  | _, _ =>
+    match keyNum a, keyNum b with
+    | some (m, e), some (m', e') => decide (m * (10 : Int) ^ e' = m' * (10 : Int) ^ e)
+    | _, _ => false
+
+/-- `{key: entry}.get(k, dflt)` -/
+def oneGet (key entry k dflt : PyVal) : R PyVal := do
+  hashable k
+  pure (if pyKeyEq k key then entry else dflt)
+
+/-- `get_config({key: entry}, layer, layer_class, parameter)`: the same statements as `getConfig`,
+    on the one-entry dictionary `{key: entry}` -/
+def getConfigOne (key entry : PyVal) (l : PyVal) (cls : String) (param : Option String) : R PyVal := do
+  let cfg ← sub l "config"
+  let nm ← sub cfg "name"
+  let dflt ← oneGet key entry (.str cls) .none
+  let e ← oneGet key entry nm dflt
+  paramOf e param
+
+/-- one direction of a Bidirectional wrapper:
+    `d = {keyLayer["config"]["name"]: get_config(quantizer_config, layer, "QBidirectional")}` and
+    `quantize_rnn(inner, d)`.  In the code the key is always the name of the very layer handed to
+    `quantize_rnn` (`keyLayer = inner`, see `bidirInner`); the parameter makes the dependence explicit:
+    `quantize_rnn` finds the entry only under the layer's OWN name (or under `"Q" + class`). -/
+def bidirSide (look : Look) (bits : String) (keyLayer inner : PyVal) : R PyVal := do
+  let key ← sub (← sub keyLayer "config") "name"
   let entry ← look "QBidirectional" none
-  hashable iname
-  quantizeRnn (fun _ p => paramOf entry p) bits inner
+  hashable key
+  quantizeRnn (getConfigOne key entry inner) bits inner
+
+/-- the inner layer of a Bidirectional wrapper (forward: `layer_config["layer"]`, backward:
+    `layer_config["backward_layer"]`): the one-entry dictionary is keyed by that layer's own name -/
+def bidirInner (look : Look) (bits : String) (inner : PyVal) : R PyVal :=
+  bidirSide look bits inner inner
 
 /-- `if "backward_layer" in layer_config: ...` -/
 def bidirBackward (look : Look) (bits : String) (l : PyVal) : R PyVal := do
